@@ -685,7 +685,9 @@ func c13(c *Ctx) (*report.Result, error) {
 	}
 	res.RuleDoc["O13.9"] = "no event type is skipped that can carry a mapped name: the skip list and the message shortcut of namespace translation do not hide a namespace-name site (same analysis as O12.3) - a name the request side maps and the response side skips does not survive the round trip"
 	if r12, err := nsWalkRules(c, "C12"); err == nil && r12 != nil {
-		if n := importObligations(res, r12, "O13.9", func(o report.Obligation) bool { return o.Rule == "O12.3" && o.Status != report.Holds || o.Rule == "O12.3" && strings.HasPrefix(o.Construct, "skip[") }); n < 10 {
+		if n := importObligations(res, r12, "O13.9", func(o report.Obligation) bool {
+			return o.Rule == "O12.3" && o.Status != report.Holds || o.Rule == "O12.3" && strings.HasPrefix(o.Construct, "skip[")
+		}); n < 10 {
 			res.Undec("O13.9", "skip-list obligations of O12.3", "", fmt.Sprintf("%d imported, at least 10 expected", n))
 		}
 	}
